@@ -78,6 +78,17 @@ func cmdDump(args []string) {
 			for _, a := range fn.AnonFuncs {
 				fmt.Println("anon:", relName(a))
 			}
+			for _, l := range li.list {
+				for b := range l.body {
+					for _, in := range b.Instrs {
+						ms := newModSet()
+						e.instrMods(fn, in, ms, nil, 0)
+						if ms.all {
+							fmt.Printf("loop %d: unbounded frame from: %s\n", l.ordinal, in.String())
+						}
+					}
+				}
+			}
 		}
 	}
 }
